@@ -41,9 +41,48 @@ class Lazy:
 
     __array_priority__ = 3000.0
 
-    def __init__(self, shape, fn):
+    def __init__(self, shape, fn, kind="real"):
         self.shape = tuple(_maybe_int(S(s)) for s in shape)
         self.fn = fn
+        self.kind = kind  # "complex": trailing axis of length 2 = (re, im)
+
+    @property
+    def real(self):
+        if self.kind != "complex":
+            return self
+        f = self.fn
+        return Lazy(self.shape[:-1], lambda idx: f(tuple(idx) + (Sym.const(0),)))
+
+    @property
+    def imag(self):
+        if self.kind != "complex":
+            raise Unsupported(".imag of a real lazy array")
+        f = self.fn
+        return Lazy(self.shape[:-1], lambda idx: f(tuple(idx) + (Sym.const(1),)))
+
+    def __setitem__(self, key, value):
+        """single-cell assignment a[i, j, ..] = v (numpy semantics on a fresh array)"""
+        if not isinstance(key, tuple):
+            key = (key,)
+        if len(key) != self.ndim or any(isinstance(k, slice) or k is Ellipsis for k in key):
+            raise Unsupported("item assignment on a lazy array other than a single cell")
+        at = [S(k) for k in key]
+        val = S(value)
+        old = self.fn
+
+        def fn(idx, at=at, val=val, old=old):
+            from .sym import all_of
+            hit = all_of(*[S(i) == a for i, a in zip(idx, at)])
+            d = ctx.decide(hit)
+            if d is True:
+                return val  # the overwritten expression (e.g. 1/r at r = 0) is never evaluated for this cell
+            if d is False:
+                return S(old(idx))
+            return ite(hit, val, S(old(idx)))
+
+        self.fn = fn
+        if hasattr(self, "_view"):
+            del self._view
 
     @property
     def ndim(self):
@@ -126,7 +165,8 @@ class Lazy:
         if v is None:
             return NotImplemented
         f = self.fn
-        return Lazy(self.shape, lambda idx: op(S(f(idx)), v))
+        # a complex array times / plus a REAL scalar acts component-wise for * and / only
+        return Lazy(self.shape, lambda idx: op(S(f(idx)), v), kind=self.kind)
 
     def __add__(self, o): return self._bin(o, lambda a, b: a + b)
     def __radd__(self, o): return self._bin(o, lambda a, b: b + a)
@@ -150,7 +190,7 @@ def as_lazy(x) -> Lazy:
         return x
     if isinstance(x, View):
         upto = len(x.buf.log)  # value at the time of the call (numpy evaluates eagerly)
-        return Lazy(x.shape, lambda idx, x=x, upto=upto: x.at(idx, upto))
+        return Lazy(x.shape, lambda idx, x=x, upto=upto: x.at(idx, upto), kind=x.buf.kind if x.ndim == x.buf.rank else "real")
     raise Unsupported(f"not a symbolic array: {type(x).__name__}")
 
 
@@ -278,6 +318,10 @@ class SymNp:
         return self._new("empty", shape, None)  # arbitrary (uninitialised) content
 
     def zeros_like(self, a, dtype=None, **kw):
+        if isinstance(a, View) and a.buf.kind == "complex" and a.ndim == a.buf.rank:
+            b = Buffer(f"zeros{next(_ids)}", [S(n) for n in a.shape], kind="complex")
+            b.init = lambda idx: Sym.const(0)
+            return b.full_view()
         if isinstance(a, (View, Lazy)):
             return self.zeros(a.shape)
         return _np.zeros_like(a, dtype=dtype, **kw)
@@ -309,9 +353,16 @@ class SymNp:
     def meshgrid(self, *arrs, indexing="xy", **kw):
         if not any(isinstance(a, (Lazy, View)) for a in arrs):
             return _np.meshgrid(*arrs, indexing=indexing, **kw)
-        if indexing != "ij" or kw:
-            raise Unsupported("meshgrid other than indexing='ij'")
+        if kw:
+            raise Unsupported("meshgrid options")
         ls = [as_lazy(a) for a in arrs]
+        if indexing == "xy":
+            if len(ls) != 2:
+                raise Unsupported("meshgrid indexing='xy' with other than two arrays")
+            shape = (ls[1].shape[0], ls[0].shape[0])  # (len(y), len(x)); x varies along the last axis
+            return [Lazy(shape, lambda idx, l=ls[0]: l.fn((idx[1],))), Lazy(shape, lambda idx, l=ls[1]: l.fn((idx[0],)))]
+        if indexing != "ij":
+            raise Unsupported(f"meshgrid indexing={indexing!r}")
         shape = tuple(l.shape[0] for l in ls)
         return [Lazy(shape, lambda idx, l=l, d=d: l.fn((idx[d],))) for d, l in enumerate(ls)]
 
